@@ -31,7 +31,7 @@ LEVEL_NOTE = "trusted: ast.dump equality as 'same final program'; rec-style even
 RULE = ("one run = program (1-4 sites; fix next to update in one container, deletes next to inserts in one list / dict / call, create of a key next to "
         "trim of a key, hand-styled previous content) -> pending set P from the reported categories -> |P|! histories + combined session; distinct = "
         "(P, operation, shared-node shape); non-trivial = |P| >= 2")
-RULE += " Dimensions added while testing against seeded changes: a fix that keeps the file size next to a pending update (real-plugin histories over one persistent directory with bytecode caches); projects that hide updates; files needing both tool imports; the all-at-once session dying while one-at-a-time completes is a confluence violation."
+RULE += " Dimensions added while testing against seeded changes: a fix that keeps the file size next to a pending update (real-plugin histories over one persistent directory with bytecode caches); projects that hide updates; files needing both tool imports; the all-at-once session dying while one-at-a-time completes is a confluence violation; fixed values written in parentheses in front of an argument that update deletes; an order that dies where approving together completes is a confluence violation."
 ASSUMPTIONS = ["events are non-aborting, or `assert` on == snapshots with no trim pending (every single-category session then reaches every snapshot)", "programs whose sessions do not complete are discarded (C18)"]
 REAL_VS_STUB = {
     "real": ["inline_snapshot library from /repo/src", "Example.run_inline (bulk)", "pytest + plugin (sample)", "black"],
